@@ -573,6 +573,47 @@ func c10StateAccept(c *Ctx) {
 		}
 	}
 	c.verdict(derived, "sparseFileLoader.stateFromReader:chunk-count", fn.Pos(), "the expected length is computed from len(l.chunks)", "the expected state length is not derived from the number of chunks")
+	// which file the accepted state is read from: a state is adopted as "these chunks are in
+	// the cache file" only when it is the one this cache file's own state is saved to.  The
+	// init state names chunks worth pre-loading (it usually comes from another instance);
+	// adopting it marks chunks done whose bytes were never written here.
+	ls := c.mustFn("sparseFileLoader.loadState")
+	if ls == nil {
+		return
+	}
+	sites := 0
+	for _, g := range c.subjects() {
+		for _, call := range calls(g, func(string) bool { return true }) {
+			if call.Common().StaticCallee() != ls || len(call.Common().Args) < 2 {
+				continue
+			}
+			sites++
+			fromSave, fromOther := false, ""
+			for _, l := range leaves(call.Common().Args[1]) {
+				cl, idx := callOf(l)
+				if cl == nil || idx != 0 || len(cl.Call.Args) == 0 {
+					fromOther = "a reader that is not the result of opening a file in view"
+					continue
+				}
+				name := callee(cl)
+				if name != "os.Open" && name != "os.OpenFile" {
+					fromOther = "the result of " + name
+					continue
+				}
+				os := origins(cl.Call.Args[0])
+				switch {
+				case len(os) == 1 && os[0] == "field:SparseFileOptions.StateSaveFile":
+					fromSave = true
+				default:
+					fromOther = fmt.Sprintf("a file named by %v", os)
+				}
+			}
+			c.verdict(fromSave && fromOther == "", "NewSparseFile:accepted-state-is-own", call.Pos(), "the state adopted by loadState is read from the file named by StateSaveFile", "the state adopted as 'already in the cache file' is read from "+fromOther+", not from the file this cache file's state is saved to (StateSaveFile): chunks marked in a foreign state are served as the zeros of the unpopulated file")
+		}
+	}
+	if sites == 0 {
+		c.info("NewSparseFile:accepted-state-is-own", ls.Pos(), "loadState has no call site")
+	}
 }
 
 func c10Locks(c *Ctx) {
